@@ -10,11 +10,13 @@ import (
 	"time"
 
 	"verif/sim/core"
+	"verif/sim/props/c04"
 	"verif/sim/props/c05"
 )
 
 func props() map[string]core.Prop {
 	return map[string]core.Prop{
+		"C04": c04.Prop{},
 		"C05": c05.Prop{},
 	}
 }
